@@ -240,13 +240,15 @@ func runC06(c *Ctx) {
 	vs := w.Fn("core", "BlockValidator", "ValidateState")
 	want := map[string]bool{"Root": false, "ValRoot": false, "StakingRoot": false, "ReceiptHash": false, "Bloom": false}
 	hdr := w.Struct("core/types", "Header")
-	for _, b := range vs.Blocks {
-		for _, in := range b.Instrs {
-			if bo, ok := in.(*ssa.BinOp); ok {
-				for _, v := range []ssa.Value{bo.X, bo.Y} {
-					if f, _ := loadedField(stripConv(v)); f != nil && ownerOfField(hdr, f) {
-						if _, has := want[f.Name()]; has {
-							want[f.Name()] = true
+	for _, vfn := range withSmallHelpers(vs) {
+		for _, b := range vfn.Blocks {
+			for _, in := range b.Instrs {
+				if bo, ok := in.(*ssa.BinOp); ok {
+					for _, v := range []ssa.Value{bo.X, bo.Y} {
+						if f, _ := loadedField(stripConv(v)); f != nil && ownerOfField(hdr, f) {
+							if _, has := want[f.Name()]; has {
+								want[f.Name()] = true
+							}
 						}
 					}
 				}
